@@ -15,8 +15,8 @@ RULE = ("every history up to the depth bound over: assign through the "
         "distinct = distinct (model state, event)")
 EXPLANATION = ("direct exploration; reference model = two dicts + a 'link "
                "broken' bit per prototyped attribute")
-BOUNDS = {"quick": "seven kinds; depth 3 with dedup over ~75 events (six-attribute "
-                   "classes), depth 5 (two-attribute prototype class, chain)",
+BOUNDS = {"quick": "nine kinds; depth 3 with dedup over ~90 events (eight-attribute "
+                   "classes) and over 36 events (container / event targets), depth 5 (two-attribute prototype class, chain)",
           "thorough": "depth 4 / 6"}
 ASSUMPTIONS = ["a notification on delegate *swap* is neither required nor "
                "forbidden", "listenable=True"]
